@@ -123,6 +123,9 @@ def same_array(a, b, dtype=True):
         return False
     if dtype and not same_dtype(a.dtype, b.dtype):
         return False
+    if a.dtype.kind in "mM" or b.dtype.kind in "mM":
+        # dates / durations: the same unit and the same 64-bit counts (NaT is one particular count)
+        return a.dtype == b.dtype and bool(np.array_equal(a.view(np.int64), b.view(np.int64)))
     if a.dtype.kind in "fc" or b.dtype.kind in "fc":
         try:
             return bool(np.array_equal(a, b, equal_nan=True))
